@@ -22,11 +22,15 @@ CONSTANTS GenDepth,     \* length of the histories to emit
           GenPending,   \* TRUE: Announce / HandleTx enabled
           Script,       \* <<>>: free generation; otherwise the exact action sequence to follow
                         \* (regression histories: TLC recomputes the expected views for them)
+          GenWant,      \* "" or the name of an event every emitted history must contain:
+                        \*   "import-reorg": a block step pulled a rescan cursor back (reorganisation below the cursor
+                        \*                   processed while the wallet was importing); the import may not complete before
           GenRandom     \* TRUE (simulation only): one random instance per action kind, so that
                         \* kinds are drawn uniformly instead of proportionally to their instances
 
-VARIABLE hist
-gvars == <<vars, hist>>
+VARIABLES hist,
+          flags     \* noteworthy events seen so far (steer and filter generation, see GenWant)
+gvars == <<vars, hist, flags>>
 
 \* the constant universe, printed once so that the replayer needs no second copy
 Universe == [wallets |-> Wallets, txins |-> TxIns, txouts |-> TxOuts,
@@ -46,9 +50,21 @@ Expect ==
           views |-> [w \in Ready' |-> View(CC(wchain)', pend', w)]]
     ELSE [q |-> FALSE]
 
-Log(r) == hist' = Append(hist, r @@ [exp |-> Expect])
+NewFlags ==
+    IF \E x \in Wallets : status[x] = "importing" /\ cursor'[x] < cursor[x] THEN {"import-reorg"} ELSE {}
 
-CanFinish == Len(ntfB') + Len(ntfT') + Len(tasks') + (IF up' THEN 0 ELSE 1) <= GenDepth - (Len(hist) + 1)
+Log(r) == /\ hist' = Append(hist, r @@ [exp |-> Expect])
+          /\ flags' = flags \cup NewFlags
+
+\* a lower bound on the steps still needed to become quiescent: one per queued notification, a restart,
+\* and for every queued rescan one step per batch up to the tip the wallet will have by then
+TaskNeed(t) == IF t[1] = "remove" THEN 1
+               ELSE LET todo == Len(wchain') + Len(ntfB') - cursor'[t[2]]
+                    IN IF todo <= ImportBatch THEN 1 ELSE (todo + ImportBatch - 1) \div ImportBatch
+RECURSIVE SumNeed(_)
+SumNeed(q) == IF q = <<>> THEN 0 ELSE TaskNeed(Head(q)) + SumNeed(Tail(q))
+CanFinish == Len(ntfB') + Len(ntfT') + SumNeed(tasks') + (IF up' THEN 0 ELSE 1 + Cardinality(TaskSet'))
+                 <= GenDepth - (Len(hist) + 1)
 
 \* how an accepted announcement relates to the wallet's own chain (classifier of known findings):
 \*  "stale" - an input is already spent on the wallet's chain or on the node's (a conflict confirmed first)
@@ -61,7 +77,7 @@ AcceptedHow(t) ==
 Pick(S) == IF GenRandom /\ S # {} THEN {RandomElement(S)} ELSE S
 
 NoScript == <<>>
-GenInit == Init /\ hist = <<>>
+GenInit == Init /\ hist = <<>> /\ flags = {}
 
 \* does log entry r perform scripted action s ?
 SameAct(r, s) ==
@@ -101,6 +117,7 @@ GenNext ==
           /\ \E x \in Pick({y \in Wallets : status[y] = "ready" /\ ~Busy /\ up /\ y \in Removable}) :
                 Remove(x) /\ Log([a |-> "Remove", w |-> x])
        \/ /\ Lifecycle /\ ImportStep
+          /\ (GenWant = "import-reorg" /\ "import-reorg" \notin flags) => status'[Head(tasks)[2]] # "ready"
           /\ Log([a |-> "ImportStep", w |-> Head(tasks)[2], cur |-> cursor'[Head(tasks)[2]],
                   done |-> status'[Head(tasks)[2]] = "ready"])
        \/ /\ Lifecycle /\ RemoveStep /\ Log([a |-> "RemoveStep", w |-> Head(tasks)[2]])
@@ -112,11 +129,11 @@ GenNext ==
        \/ HandleBlock /\ Log([a |-> "HandleBlock", b |-> Head(ntfB)])
        \/ HandleTx /\ Log([a |-> "HandleTx", t |-> Head(ntfT), acc |-> TxAccepted(Head(ntfT)),
                             why |-> AcceptedHow(Head(ntfT))])
-    /\ CanFinish
+    /\ Script = <<>> => CanFinish
     /\ Script # <<>> => SameAct(hist'[Len(hist')], Script[Len(hist')])
 
 GenSpec == GenInit /\ [][GenNext]_gvars
 
 \* emitted for every full-length history that ends quiescent; never violated
-Emit == (Len(hist) = GenDepth /\ Quiescent) => PrintT(<<"HIST", ToJson(hist)>>)
+Emit == (Len(hist) = GenDepth /\ Quiescent /\ (GenWant = "" \/ GenWant \in flags)) => PrintT(<<"HIST", ToJson(hist)>>)
 =============================================================================
